@@ -23,9 +23,15 @@ type e3Call struct {
 	Key    int  `json:"key"`
 	Fail   bool `json:"fail"`
 	Yields int  `json:"yields"`
+	// Cache selects one of the scenario's caches. A call on the second cache may have its
+	// callable call once on the first (a cached value computed from another cached value);
+	// never the other way round, which would be a lock-order inversion of the caller's making.
+	Cache int     `json:"cache,omitempty"`
+	Inner *e3Call `json:"inner,omitempty"`
 }
 
 type e3Scenario struct {
+	Caches   int        `json:"caches,omitempty"`
 	Clients  [][]e3Call `json:"clients"`
 	Strategy int        `json:"strategy"`
 	Sticky   int        `json:"sticky"`
@@ -37,10 +43,18 @@ func e3Gen(r *rand.Rand, tier string) any {
 		Sticky: []int{50, 90, 99}[r.IntN(3)], PCTDepth: 1 + r.IntN(3)}
 	nc := 2 + r.IntN(5)
 	nk := 1 + r.IntN(3)
+	sc.Caches = 1 + r.IntN(4)/3
 	for c := 0; c < nc; c++ {
 		var calls []e3Call
 		for k := 0; k < 1+r.IntN(4); k++ {
-			calls = append(calls, e3Call{Key: r.IntN(nk), Fail: r.IntN(4) == 0, Yields: r.IntN(4)})
+			call := e3Call{Key: r.IntN(nk), Fail: r.IntN(4) == 0, Yields: r.IntN(4)}
+			if sc.Caches == 2 && r.IntN(2) == 0 {
+				call.Cache = 1
+				if r.IntN(2) == 0 {
+					call.Inner = &e3Call{Key: r.IntN(nk), Fail: r.IntN(5) == 0, Yields: r.IntN(3)}
+				}
+			}
+			calls = append(calls, call)
 		}
 		sc.Clients = append(sc.Clients, calls)
 	}
@@ -116,58 +130,71 @@ func e3Exec(scAny any, c *simcheck.Ctx) *simcheck.Violation {
 	values := map[string]map[string]bool{}
 	var setupErr error
 	s.Run(func() {
-		cv, err := starlark.Call(&starlark.Thread{Name: "setup"}, builtin_cache, nil, nil)
-		if err != nil {
-			setupErr = err
-			return
-		}
-		once, err := cv.(starlark.HasAttrs).Attr("once")
-		if err != nil || once == nil {
-			setupErr = fmt.Errorf("cache has no once attribute: %v", err)
-			return
+		var onces []starlark.Callable
+		for i := 0; i < max(1, sc.Caches); i++ {
+			cv, err := starlark.Call(&starlark.Thread{Name: "setup"}, builtin_cache, nil, nil)
+			if err != nil {
+				setupErr = err
+				return
+			}
+			once, err := cv.(starlark.HasAttrs).Attr("once")
+			if err != nil || once == nil {
+				setupErr = fmt.Errorf("cache has no once attribute: %v", err)
+				return
+			}
+			onces = append(onces, once.(starlark.Callable))
 		}
 		var wg simsync.WaitGroup
 		id := 0
+		var do func(thread *starlark.Thread, client int, call e3Call, opID int)
+		do = func(thread *starlark.Thread, client int, call e3Call, opID int) {
+			cache := min(call.Cache, len(onces)-1)
+			key := fmt.Sprintf("c%d/k%d", cache, call.Key)
+			invoked := false
+			fn := starlark.NewBuiltin("callable", func(th *starlark.Thread, _ *starlark.Builtin, _ starlark.Tuple, _ []starlark.Tuple) (starlark.Value, error) {
+				invoked = true
+				for y := 0; y < call.Yields; y++ {
+					s.Yield("callable", key)
+				}
+				if call.Inner != nil && cache > 0 {
+					in := *call.Inner
+					in.Cache, in.Inner = 0, nil
+					do(th, 1000+opID, in, opID+1)
+				}
+				if call.Fail {
+					return nil, fmt.Errorf("callable %d failed", opID)
+				}
+				invokedOK[key] = append(invokedOK[key], opID)
+				return starlark.String(fmt.Sprintf("v%d", opID)), nil
+			})
+			seq++
+			callAt := seq
+			v, err := starlark.Call(thread, onces[cache], starlark.Tuple{starlark.String(key), fn}, nil)
+			seq++
+			out := e3Out{invoked: invoked, failed: err != nil}
+			if err == nil {
+				if sv, ok := v.(starlark.String); ok {
+					out.val = string(sv)
+				} else {
+					out.val = v.String()
+				}
+				if values[key] == nil {
+					values[key] = map[string]bool{}
+				}
+				values[key][out.val] = true
+			}
+			ops = append(ops, porcupine.Operation{ClientId: client, Input: e3In{key, opID}, Call: callAt, Output: out, Return: seq})
+		}
 		for ci, calls := range sc.Clients {
 			ci, calls := ci, calls
 			base := id
-			id += len(calls)
+			id += 2 * len(calls)
 			wg.Add(1)
 			simrt.Go(func() {
 				defer wg.Done()
 				thread := &starlark.Thread{Name: fmt.Sprintf("client%d", ci)}
 				for k, call := range calls {
-					opID := base + k
-					key := fmt.Sprintf("k%d", call.Key)
-					invoked := false
-					fn := starlark.NewBuiltin("callable", func(*starlark.Thread, *starlark.Builtin, starlark.Tuple, []starlark.Tuple) (starlark.Value, error) {
-						invoked = true
-						for y := 0; y < call.Yields; y++ {
-							s.Yield("callable", key)
-						}
-						if call.Fail {
-							return nil, fmt.Errorf("callable %d failed", opID)
-						}
-						invokedOK[key] = append(invokedOK[key], opID)
-						return starlark.String(fmt.Sprintf("v%d", opID)), nil
-					})
-					seq++
-					callAt := seq
-					v, err := starlark.Call(thread, once.(starlark.Callable), starlark.Tuple{starlark.String(key), fn}, nil)
-					seq++
-					out := e3Out{invoked: invoked, failed: err != nil}
-					if err == nil {
-						if sv, ok := v.(starlark.String); ok {
-							out.val = string(sv)
-						} else {
-							out.val = v.String()
-						}
-						if values[key] == nil {
-							values[key] = map[string]bool{}
-						}
-						values[key][out.val] = true
-					}
-					ops = append(ops, porcupine.Operation{ClientId: ci, Input: e3In{key, opID}, Call: callAt, Output: out, Return: seq})
+					do(thread, ci, call, base+2*k)
 				}
 			})
 		}
@@ -243,6 +270,16 @@ func e3Simplify(scAny any) []any {
 			if len(sc.Clients[i]) > 1 {
 				c := clone()
 				c.Clients[i] = append(c.Clients[i][:k:k], c.Clients[i][k+1:]...)
+				out = append(out, c)
+			}
+			if sc.Clients[i][k].Inner != nil {
+				c := clone()
+				c.Clients[i][k].Inner = nil
+				out = append(out, c)
+			}
+			if sc.Clients[i][k].Cache != 0 && sc.Clients[i][k].Inner == nil {
+				c := clone()
+				c.Clients[i][k].Cache = 0
 				out = append(out, c)
 			}
 			if sc.Clients[i][k].Fail || sc.Clients[i][k].Yields > 0 {
